@@ -103,6 +103,10 @@ pub fn diff_objects(
     expected: &BTreeMap<ObjectId, Object>, actual: &BTreeMap<ObjectId, Object>,
 ) -> Option<String> {
     for (id, o) in expected {
+        if is_structural(o) && !actual.contains_key(id) {
+            // containers kept in memory by a loader are not written again by the writer
+            continue;
+        }
         match actual.get(id) {
             None => return Some(format!("object {} {} missing after load (was {})", id.0, id.1, crate::run::truncate(&show(o), 200))),
             Some(p) => {
